@@ -412,6 +412,15 @@ def _demo_stream(eid, tid):
 
 
 def do_traces_filters(req):
+    import pykdebugparser.pykdebugparser as M
+    real = M.KdBufParser
+    try:
+        return _traces_filters(req)
+    finally:
+        M.KdBufParser = real
+
+
+def _traces_filters(req):
     import copy
     import pykdebugparser.pykdebugparser as M
     cfg = dict(req['config'])
@@ -474,6 +483,27 @@ def do_traces_filters(req):
                     out['what'] = ('after a request with filter_class %r the caller changes the list in place to %r and asks again: the parser reports %r, '
                                    'a fresh parser with these settings reports %r' % (fc0, fc_b, [t[2] for t in seq], [t[2] for t in fresh]))
                     break
+        if not out['violates']:
+            # a request that is only partly consumed and still referenced: the caller's settings are as the caller set them, and
+            # the next request on the same object (made without touching the settings) equals the request on a fresh object
+            p3 = M.PyKdebugParser()
+            fc3, fsc3 = list(fc0), list(fsc0)
+            p3.filter_tid, p3.filter_process, p3.filter_class, p3.filter_subclass = cfg.get('filter_tid'), cfg.get('filter_process'), fc3, fsc3
+            pending = iter(p3.traces(None))
+            first = next(pending, None)
+            now = (p3.filter_tid, p3.filter_process, p3.filter_class, p3.filter_subclass)
+            if p3.filter_class is not fc3 or p3.filter_subclass is not fsc3 or list(fc3) != fc0 or list(fsc3) != fsc0 \
+                    or now[0] != cfg.get('filter_tid') or now[1] != cfg.get('filter_process'):
+                out['violates'] = True
+                out['what'] = ('after taking the first trace of a request with the filters %r the filter settings of the parser are %r' % (
+                    cfg, (now[0], now[1], list(now[2]), list(now[3]))))
+            else:
+                nxt = [str(t) for t in p3.traces(None)]
+                if nxt != [t[2] for t in got]:
+                    out['violates'] = True
+                    out['what'] = ('a request with the filters %r made while an earlier, partly consumed request is still pending reports %r, '
+                                   'a fresh parser reports %r' % (cfg, nxt, [t[2] for t in got]))
+            del pending, first
         if out['violates'] and not residue and 'what' not in out:
             out['what'] = 'traces() with the filters %r reports %r; the unfiltered run restricted to the filter is %r (second request: %r)' % (
                 cfg, out['got'], out['expected'], out['second_call'])
